@@ -222,6 +222,9 @@ func (w *World) setup() {
 		}
 	}
 	w.echo = c.Bool(1, 8, "echo")
+	if c.Bool(1, 4, "unrelated.instance") {
+		w.unrelatedAt = 2 + c.Choose(6*w.n, "unrelated.at")
+	}
 	w.strategy = c.Weighted([]int{4, 2, 2, 2, 2}, "strategy")
 	w.starved = c.Choose(w.n, "starved")
 	w.out.Params["proto"] = protoName[w.proto]
@@ -408,10 +411,34 @@ func (w *World) deliver(m *Msg) {
 	}
 	var err error
 	var p bool
+	// every delivery hands the instance the transport's own receive buffer, which is recycled
+	// (overwritten) as soon as the handler has returned: whatever an instance needs later it
+	// must have copied
+	buf := append(make([]byte, 0, len(m.Data)+8), m.Data...)
 	if m.Bcast {
-		err, p = w.call(r, "HandleBroadcastMsg", func() error { return r.st.HandleBroadcastMsg(m.From, m.Data) })
+		err, p = w.call(r, "HandleBroadcastMsg", func() error { return r.st.HandleBroadcastMsg(m.From, buf) })
 	} else {
-		err, p = w.call(r, "HandlePrivateMsg", func() error { return r.st.HandlePrivateMsg(m.From, m.Data) })
+		err, p = w.call(r, "HandlePrivateMsg", func() error { return r.st.HandlePrivateMsg(m.From, buf) })
+	}
+	for i := range buf[:cap(buf)] {
+		buf[:cap(buf)][i] = 0xA7
+	}
+	// another DKG session may be set up in the same process at any time: constructing an
+	// unrelated instance (other size and threshold) has no effect on the running ones
+	if w.unrelatedAt > 0 && w.events == w.unrelatedAt {
+		n2 := 2 + w.c.Choose(9, "unrelated.n")
+		t2 := 1 + w.c.Choose(n2-1, "unrelated.t")
+		cp := &capture{shares: map[int][]byte{}}
+		switch w.c.Choose(3, "unrelated.proto") {
+		case 0:
+			_, _ = crypto.NewFeldmanVSS(n2, t2, 0, cp, 0)
+		case 1:
+			_, _ = crypto.NewFeldmanVSSQual(n2, t2, 0, cp, 0)
+		default:
+			_, _ = crypto.NewJointFeldman(n2, t2, 0, cp)
+		}
+		w.fault("process.unrelated_instance_created")
+		w.ev("an unrelated DKG instance (n=%d, t=%d) is constructed in the same process", n2, t2)
 	}
 	if !p && err != nil {
 		cls := "handler.error:" + protoName[w.proto] + ":" + errClass(err)
